@@ -9,6 +9,7 @@ from typing import Any
 
 from .minieval import Evaluator, Host, Raised, Refused, Sym, UserFunc
 from .model import Repo
+from .util import norm
 
 
 class Opaque:
@@ -110,6 +111,57 @@ def fold_resolve(repo: Repo) -> dict | None:
     except Refused:
         return None
     except (TypeError, KeyError, IndexError, ValueError, AttributeError):
+        return None
+    return out
+
+
+def repo_exception_parents(repo: Repo) -> dict[str, list[str]]:
+    """Class name -> base names for the exception classes the repository defines (exceptions.py), for the evaluator's except matching."""
+    out: dict[str, list[str]] = {}
+    mod = repo.modules.get("exceptions.py")
+    if mod is not None:
+        for st in mod.tree.body:
+            if isinstance(st, ast.ClassDef):
+                out[st.name] = [norm(b_).split(".")[-1] for b_ in st.bases]
+    return out
+
+
+def fold_getattr(repo: Repo) -> dict | None:
+    """cstruct.__getattr__ over (constants, typedefs, name): a constant wins and is returned whatever its value (0, '', None, False); a typedef is
+    resolved; an unknown name raises AttributeError; an alias that cannot be resolved raises the resolve error, not AttributeError."""
+    fi = repo.func("cstruct.py", "cstruct.__getattr__")
+    ty = Sym("a-type")
+    cases = {
+        "a constant 5": ({"N": 5}, {}, "N", 5), "a constant 0": ({"N": 0}, {}, "N", 0), "a constant ''": ({"N": ""}, {}, "N", ""),
+        "a constant None": ({"N": None}, {}, "N", None), "a constant False": ({"N": False}, {}, "N", False),
+        "a type": ({}, {"t": ty}, "t", ty), "an alias by name": ({}, {"a": "t", "t": ty}, "a", ty), "a name that is both": ({"x": 7}, {"x": ty}, "x", 7),
+        "an unknown name": ({"N": 1}, {"t": ty}, "zz", "AttributeError"), "a dangling alias": ({}, {"a": "missing"}, "a", "ResolveError"),
+    }
+    out: dict = {"cases": 0, "bad": []}
+    parents = repo_exception_parents(repo)
+    try:
+        for label, (consts, typedefs, name, want) in cases.items():
+            def resolve(x, typedefs=typedefs):
+                n_ = 0
+                while isinstance(x, str):
+                    if x not in typedefs or n_ > 10:
+                        raise Raised(f"ResolveError('Unknown type {x}')")
+                    x = typedefs[x]
+                    n_ += 1
+                return x
+
+            cs = Sym("cs", {"consts": dict(consts), "typedefs": dict(typedefs)}, {"resolve": Host(resolve)})
+            env = {"__exc_parents__": parents, "isinstance": Host(lambda o, k: k is str and isinstance(o, str)), "str": str}
+            try:
+                got: Any = Evaluator(env, steps=5000).call_user(UserFunc(fi.node), [cs, name], {})
+            except Raised as e:
+                got = str(e).split("(")[0].split(":")[0].strip()
+            out["cases"] += 1
+            if got != want or (got is not want and not isinstance(want, (int, str))) or type(got) is not type(want):
+                out["bad"].append((label, got, want))
+    except Refused:
+        return None
+    except (TypeError, IndexError, ValueError):
         return None
     return out
 
